@@ -57,6 +57,11 @@ Section D.
       end in
     inward_tau M w tau.
 
+  (* run-time form of the premise "the joint update order lists every movable body" of the NLE theorems *)
+  Definition order_ok (M : Model) : bool :=
+    forallb (fun i => existsb (Nat.eqb i) (tl (update_order M))) (body_range M) &&
+    forallb (fun i => Nat.ltb 0 i && Nat.ltb i (nbodies M)) (tl (update_order M)).
+
   (* NonlinearEffects -- as repaired by the "fix:" commits (c_J kept and X_base refreshed) *)
   Definition nonlinear_effects (M : Model) (w : WS) (q qd : list T) (tau : list T)
              (fext : option (list SV)) : WS * list T :=
